@@ -160,11 +160,11 @@ func VerifC04SearchDeep() {
 	switch verifParam("set", 0) {
 	case 0: // quick
 		ns = []int{32, 33, 64}
-	case 1: // every n in 21..80 and the next tree-level boundary
-		for n := 21; n <= 80; n++ {
+	case 1: // every n in 21..56 and the next tree-level boundaries
+		for n := 21; n <= 56; n++ {
 			ns = append(ns, n)
 		}
-		ns = append(ns, 100, 127, 128, 129)
+		ns = append(ns, 63, 64, 65, 100, 127, 128, 129)
 	case 2:
 		ns = []int{255, 256, 257, 511, 512, 513, 1000}
 	case 3:
